@@ -70,14 +70,14 @@ package hashmap
 
 // entry-slice helpers: all slice bounds in range, result length as expected
 //@ func withoutEntry
-//@   props C07
+//@   props C07 C14
 //@   nowrite
 //@   requires len(entries) >= 1 && idx < len(entries)
 //@   ensures len(result) == len(entries) - 1
 //@   ensures fresh(result)
 
 //@ func replaceEntry
-//@   props C07
+//@   props C07 C14
 //@   nowrite
 //@   requires i < len(entries)
 //@   ensures len(result) == len(entries)
@@ -104,88 +104,88 @@ package hashmap
 //@   nowrite
 
 //@ func hashMap.Assoc
-//@   props C07
+//@   props C07 C14
 //@   nosafety
 //@   nowrite
 //@ func hashMap.Dissoc
-//@   props C07
+//@   props C07 C14
 //@   nosafety
 //@   nowrite
 //@ func hashMap.Index
-//@   props C07
+//@   props C07 C14
 //@   nosafety
 //@   nowrite
 
 //@ func arrayNode.withNewChild
-//@   props C07
+//@   props C07 C14
 //@   nosafety
 //@   nowrite
 //@   ensures fresh(result)
 //@ func arrayNode.assoc
-//@   props C07
+//@   props C07 C14
 //@   nosafety
 //@   nowrite
 //@ func arrayNode.without
-//@   props C07
+//@   props C07 C14
 //@   nosafety
 //@   nowrite
 //@ func arrayNode.pack
-//@   props C07
+//@   props C07 C14
 //@   nosafety
 //@   nowrite
 //@   loop 1 invariant fresh(newNode.entries)
 //@ func arrayNode.find
-//@   props C07
+//@   props C07 C14
 //@   nosafety
 //@   nowrite
 
 //@ func createNode
-//@   props C07
+//@   props C07 C14
 //@   nosafety
 //@   nowrite
 //@ func bitmapNode.unpack
-//@   props C07
+//@   props C07 C14
 //@   nosafety
 //@   nowrite
 //@ func bitmapNode.withoutEntry
-//@   props C07
+//@   props C07 C14
 //@   nosafety
 //@   nowrite
 //@   skip pre:withoutEntry
 //@ func bitmapNode.withReplacedEntry
-//@   props C07
+//@   props C07 C14
 //@   nosafety
 //@   nowrite
 //@   skip pre:replaceEntry
 //@ func bitmapNode.assoc
-//@   props C07
+//@   props C07 C14
 //@   nosafety
 //@   nowrite
 //@ func bitmapNode.without
-//@   props C07
+//@   props C07 C14
 //@   nosafety
 //@   nowrite
 //@ func bitmapNode.find
-//@   props C07
+//@   props C07 C14
 //@   nosafety
 //@   nowrite
 
 //@ func collisionNode.assoc
-//@   props C07
+//@   props C07 C14
 //@   nosafety
 //@   nowrite
 //@   skip pre:replaceEntry
 //@ func collisionNode.without
-//@   props C07
+//@   props C07 C14
 //@   nosafety
 //@   nowrite
 //@   skip pre:withoutEntry
 //@ func collisionNode.find
-//@   props C07
+//@   props C07 C14
 //@   nosafety
 //@   nowrite
 //@ func collisionNode.findIndex
-//@   props C07
+//@   props C07 C14
 //@   nosafety
 //@   nowrite
 
